@@ -146,6 +146,36 @@ theorem C19_rad_deg_agree {H : Rat} (hH : 0 < H) (x : Rat) :
   rw [e2, e1, e3, wrapAngle_scale hc, wrapAngle_scale hc]
   constructor <;> ring
 
+/-! ### Call forms: the unit is what the second positional argument / the keyword `deg` says, degrees by default -/
+
+/-- what a call asks for depends only on the truth value of the flag, not on how it is passed; an omitted flag and a
+true flag are the degree conversion, a false flag is the radian conversion (half turn `piD`) -/
+theorem C19_call_forms_agree (piD x : Rat) (b : Bool) :
+    yawToHeadingCall piD (.positional b) x = yawToHeadingCall piD (.keyword b) x ∧
+    headingToYawCall piD (.positional b) x = headingToYawCall piD (.keyword b) x ∧
+    yawToHeadingCall piD .omitted x = yawToHeading x ∧ headingToYawCall piD .omitted x = headingToYaw x ∧
+    yawToHeadingCall piD (.positional true) x = yawToHeading x ∧ headingToYawCall piD (.positional true) x = headingToYaw x ∧
+    yawToHeadingCall piD (.positional false) x = yawToHeadingH piD x ∧
+    headingToYawCall piD (.positional false) x = headingToYawH piD x :=
+  ⟨rfl, rfl, rfl, rfl, rfl, rfl, rfl, rfl⟩
+
+/-- every call form lands in the range of the unit it names: [0, 360) / [−180, 180), or [0, 2π) / [−π, π) -/
+theorem C19_call_range {piD : Rat} (hpi : 0 < piD) (u : UnitArg) (x : Rat) :
+    (0 ≤ yawToHeadingCall piD u x ∧ yawToHeadingCall piD u x < 2 * halfTurn piD u.deg) ∧
+    (-(halfTurn piD u.deg) ≤ headingToYawCall piD u x ∧ headingToYawCall piD u x < halfTurn piD u.deg) := by
+  have hH : 0 < halfTurn piD u.deg := by
+    unfold halfTurn
+    split
+    · norm_num
+    · exact hpi
+  exact C19_rad_range hH x
+
+/-- every call form is congruent to a quarter turn (of its unit) minus the input -/
+theorem C19_call_congr (piD : Rat) (u : UnitArg) (x : Rat) :
+    (∃ k : Int, yawToHeadingCall piD u x = halfTurn piD u.deg / 2 - x + 2 * halfTurn piD u.deg * (k : Rat)) ∧
+    (∃ k : Int, headingToYawCall piD u x = halfTurn piD u.deg / 2 - x + 2 * halfTurn piD u.deg * (k : Rat)) :=
+  C19_rad_congr (halfTurn piD u.deg) x
+
 /-! ### Arrays -/
 
 /-- an array argument gives, position by position, the scalar result (same length, same elements) -/
